@@ -44,6 +44,7 @@ META = {
         "distinct_nontrivial = distinct reference sequences exercised."
         " Fault-overlap family (mc/fault_overlap.py): message X suffers one fault out of {pre_execute/post_execute/post_save/on_error hook, sync or async ack, result backend} x {RuntimeError, CancelledError, TimeoutError}, backend failing once, body raise/CancelledError/timeout/no-result, malformed/unknown message, broker stream error, while the healthy message Y has suspension points before, inside and after its function and the stop request may arrive at any point; Y's hook sequence equals the reference whenever its processing ends (also after a broker stream error), X's for body outcomes and backend failures."
         " Repeated faults (mc/fault_overlap.py::repeats): the same fault k times in a row (k in 3..6; thorough up to 10) on one worker, then healthy messages - a counter, pool, budget or throttle inside the worker must not change what happens at the k-th occurrence. Three messages in processing at once, each parked in one gated hook (incl. three failing messages inside on_error together)."
+        " Middleware classes that come by their hooks through inheritance (all hooks on an intermediate class, split between it and the leaf, supplied by a mixin) on the worker side (one middleware, all hook subsets) and rotated through the client enumeration."
     ),
     "assumptions": [
         "hooks are recording TaskiqMiddleware subclasses generated per case; 'overridden' is what the class defines",
@@ -172,6 +173,15 @@ def worker_scenarios(tier: str) -> List[Dict[str, Any]]:
             out.append({"A": 2, "P": 0, "N": None, "stream": "finite", "stop": False, "level": 0,
                         "msgs": [dict(OUTCOMES[o], body="immediate" if OUTCOMES[o].get("outcome") != "never" else "gated")],
                         "mws": st})
+    # hooks the middleware class did not define itself: inherited from an intermediate class, split between
+    # it and the leaf, or supplied by a mixin
+    for inh in ("base", "split", "mixin"):
+        for v in variants:
+            if not v[0] or (tier == "quick" and len(v[0]) not in (1, 4) and v[1] == "async"):
+                continue
+            for o in ("return", "raise"):
+                out.append({"A": 2, "P": 0, "N": None, "stream": "finite", "stop": False, "level": 0,
+                            "msgs": [dict(OUTCOMES[o], body="immediate")], "mws": [dict(_mw(*v), inherit=inh)]})
     # three messages in processing at once, each parked in one gated hook (the others sync): e.g. three
     # failing messages inside on_error together
     for hook in W_HOOKS:
@@ -259,7 +269,11 @@ def run_client(cases: List[Tuple[Any, ...]], acc: Acc) -> None:
 
             for hk in hooks:
                 methods[hk] = mk(hk)
-            mw_obj = type(f"CMW{mi}", (TaskiqMiddleware,), methods)()
+            from mc.recv_world import make_mw_class
+
+            # the client enumeration rotates the way the class comes by its hooks
+            inh = (None, "base", "mixin", "split")[(len(st) + mi + len(hooks)) % 4] if hooks else None
+            mw_obj = make_mw_class(f"CMW{mi}", TaskiqMiddleware, methods, inh)()
             if other_broker is not None:
                 other_broker.add_middlewares(mw_obj)
             b.add_middlewares(mw_obj)
